@@ -450,8 +450,13 @@ def rule_L1(run: Run) -> RuleResult:
         for p in lps_:
             runs = [e for e in p.events if e.kind == "call" and e.text == "run" and isinstance(e.target, Sym) and e.target.head == "new:LogRequest"]
             shown_ += [e.target.key()[:80] for e in runs]
-            if len(runs) != 1 or runs[0].target.key() != "new:LogRequest(Child(level),Child(name),Child(msg),options)":
-                okl = False         # (the caller's options go with it: the handler reads LABREA.LOGGING.DISABLED from them)
+            # (the caller's options go with it: the handler reads LABREA.LOGGING.DISABLED from them — an empty dictionary only on a path
+            # that found none given)
+            k_run = runs[0].target.key() if len(runs) == 1 else ""
+            none_given = Frame.atoms(p.conds).get("options") is False or Frame.atoms(p.conds).get("cmp:Is(options,Const(None))") is True
+            if not (k_run == "new:LogRequest(Child(level),Child(name),Child(msg),options)"
+                    or (k_run == "new:LogRequest(Child(level),Child(name),Child(msg),dict{})" and none_given)):
+                okl = False
         res.add("labrea.logging.LogEffect.transform:one LogRequest carrying level, name, msg and the options", okl, le.module.relpath, lt[1].lineno, f"{shown_[:2]}", nec)
     # the level helpers (labrea.logging.INFO(name, msg, options) …) issue exactly that request: their own level, then name, message, options
     n_lv = 0
@@ -1107,6 +1112,23 @@ def rule_MF(run: Run) -> RuleResult:
                 saw_rec = saw_rec or good
                 ok = ok and good
     res.add("labrea.datasetclass._DatasetClassMixin.__init__:records options restricted to the class's keys", ok and saw_rec, f, init.lineno, "", nec)
+    # set_dotted_key builds nested sections; a dictionary filled that way is recorded as it is — merged into another one with
+    # ``update()`` / ``{**a, **b}`` (shallow) a later partial section replaces an earlier one of the same name, entries and all
+    shallow = []
+    n_filled = 0
+    for fn_ in [x for x in ast.walk(mix.module.tree) if isinstance(x, (ast.FunctionDef, ast.AsyncFunctionDef))]:
+        filled = {c_.args[2].id for c_ in ast.walk(fn_) if isinstance(c_, ast.Call) and astu.callee_name(c_).split(".")[-1] == "set_dotted_key"
+                  and len(c_.args) == 3 and isinstance(c_.args[2], ast.Name)}
+        n_filled += len(filled)
+        for c_ in ast.walk(fn_):
+            if isinstance(c_, ast.Call) and isinstance(c_.func, ast.Attribute) and c_.func.attr == "update" and any(isinstance(a_, ast.Name) and a_.id in filled for a_ in c_.args):
+                shallow.append((c_.lineno, ast.unparse(c_)[:60]))
+            if isinstance(c_, ast.Dict) and any(k_ is None and isinstance(v_, ast.Name) and v_.id in filled for k_, v_ in zip(c_.keys, c_.values)) and len(c_.values) > 1:
+                shallow.append((c_.lineno, ast.unparse(c_)[:60]))
+    res.add("labrea.datasetclass:a dictionary of nested sections is not merged shallowly into another", not shallow, f, shallow[0][0] if shallow else init.lineno,
+            f"`{shallow[0][1]}` (line {shallow[0][0]}): the merged dictionary was filled with set_dotted_key — a section that occurs twice keeps only the entries merged last, "
+            "instances whose options differ in the lost entries compare equal" if shallow else "no update()/{**…} of a dictionary filled by set_dotted_key",
+            "two instances compare equal exactly when the options restricted to the reported keys (nested dotted keys included) are equal (C19)")
     ev = meta.methods.get("evaluate")
     ok = ev is not None
     if ok:
